@@ -29,6 +29,7 @@ type op struct {
 	AutoGC bool   `json:"autogc,omitempty"`
 	Via    bool   `json:"via_resolve,omitempty"` // tag: with the descriptor Resolve(<digest>) returns (octet-stream for plain blobs)
 	Path   string `json:"path,omitempty"`        // stray: path below blobs/
+	Victim int    `json:"victim,omitempty"`      // deletefail: node of the cascade whose blob cannot be removed
 }
 
 func (o op) String() string {
@@ -53,6 +54,8 @@ func (o op) String() string {
 		return "G"
 	case "gcfail":
 		return fmt.Sprintf("F%d", o.Node)
+	case "deletefail":
+		return fmt.Sprintf("X%d!%d", o.Node, o.Victim)
 	}
 	return "?"
 }
@@ -404,6 +407,8 @@ func (e *env) apply(o op, judge bool) {
 		e.doGC(judge)
 	case "gcfail":
 		e.doGCFail(o, judge)
+	case "deletefail":
+		e.doDeleteFail(o, judge)
 	}
 }
 
@@ -689,6 +694,196 @@ func (e *env) doDelete(o op, judge bool) {
 		// which of the two routes reaches the node first is a map iteration
 		// order inside the library: the same history must end the same way
 		e.replayProbe("delete", a, extra)
+	}
+}
+
+// deleteFailTargets lists (target, victim) pairs for a Delete whose AutoGC
+// cascade is made to fail part-way: target is a stored manifest, victim a
+// stored non-manifest node that the model's cascade collects; cascades with an
+// unjudged node are left out so that the expected set is exact.
+func (e *env) deleteFailTargets() [][2]int {
+	var out [][2]int
+	for _, nd := range e.g.Nodes {
+		t := nd.ID
+		if !e.m.stored[t] || !nd.Kind.IsManifestKind() {
+			continue
+		}
+		R, unjudged := e.m.deleteExpect(t, true, func(int) bool { return false })
+		if len(unjudged) > 0 {
+			continue
+		}
+		for _, v := range sortedIDs(R) {
+			if v != t && !e.g.Nodes[v].Kind.IsManifestKind() && len(e.g.Nodes[v].Bytes) > 0 && !e.m.keyLost[v] {
+				out = append(out, [2]int{t, v})
+			}
+		}
+	}
+	return out
+}
+
+// doDeleteFail: Delete(target) with AutoGC while the blob file of one
+// collected successor has been replaced by a non-empty directory, so that its
+// removal fails after the target (and possibly more) is already gone. Whatever
+// Delete answers: (i) in memory, exactly the nodes that really went are gone
+// together with their tags, nothing outside the model's cascade went, every
+// other tag and predecessor relation is intact; (ii) on disk, index.json and a
+// store opened from the directory name no content that is gone, have lost the
+// references of the removed nodes and kept all others. Terminal step of a case.
+func (e *env) doDeleteFail(o op, judge bool) {
+	t, v := o.Node, o.Victim
+	if !judge {
+		return
+	}
+	b := e.before()
+	if b == nil {
+		return
+	}
+	R, _ := e.m.deleteExpect(t, true, func(int) bool { return false })
+	p := filepath.Join(e.dir, "blobs", filepath.FromSlash(blobRel(e.g.Nodes[v].Desc.Digest)))
+	orig, rerr := os.ReadFile(p)
+	fi, serr := os.Stat(p)
+	if rerr != nil || serr != nil {
+		e.violate("harness:deletefail", fmt.Sprintf("cannot read blob of node %d: %v %v", v, rerr, serr), nil)
+		return
+	}
+	os.Remove(p)
+	if err := os.MkdirAll(filepath.Join(p, "d"), 0o755); err != nil {
+		e.violate("harness:deletefail", err.Error(), nil)
+		return
+	}
+	e.st.AutoGC = true
+	err := e.st.Delete(ctx, e.g.Nodes[t].Desc)
+	e.lastErr = err
+	os.RemoveAll(p)
+	os.WriteFile(p, orig, fi.Mode().Perm())
+	a := e.observe()
+	e.res.Count("delete_failed_injected", 1)
+	extra := map[string]any{"target": e.nodeName(t), "unremovable": e.nodeName(v), "delete_error": fmt.Sprint(err), "model_cascade": e.names(sortedIDs(R))}
+	gone := map[int]bool{}
+	for n, ok := range e.m.stored {
+		if ok && !a.exists[n] {
+			gone[n] = true
+		}
+	}
+	extra["really_removed"] = e.names(sortedIDs(gone))
+	if err == nil {
+		key := "delete-leaves-garbage"
+		if e.m.keyLost[v] {
+			key = "delete-leaves-garbage:tagged-under-other-media-type-at-gc"
+		}
+		e.violate(key, fmt.Sprintf("Delete(%s, AutoGC) returned nil although the blob of %s, which the cascade must collect, could not be removed (the cascade never tried)", e.nodeName(t), e.nodeName(v)), extra)
+		return
+	}
+	e.res.Count("delete_failed_nodes_removed_before_failure", int64(len(gone)))
+	// (i) in memory
+	for n := range gone {
+		if !R[n] {
+			e.violate("delete-removes-unrelated-node", fmt.Sprintf("failing Delete(%s, AutoGC) removed node %s, which is outside the cascade", e.nodeName(t), e.nodeName(n)), extra)
+			return
+		}
+	}
+	for _, nd := range e.g.Nodes {
+		if !e.m.stored[nd.ID] && a.exists[nd.ID] {
+			e.violate("delete-created-node", fmt.Sprintf("node %s appeared during a failing Delete", e.nodeName(nd.ID)), extra)
+			return
+		}
+	}
+	for ref, n := range e.m.tags {
+		got, listed := a.tags[ref]
+		if gone[n] {
+			if listed {
+				e.violate("delete-leaves-tag", fmt.Sprintf("failing Delete(%s): tag %q pointed at removed node %s and still resolves (%s)", e.nodeName(t), ref, e.nodeName(n), got), extra)
+				return
+			}
+			continue
+		}
+		if got != e.wantTag(ref, n) {
+			e.violate("delete-removes-other-tag", fmt.Sprintf("failing Delete(%s): tag %q of surviving node %s now gives %q", e.nodeName(t), ref, e.nodeName(n), got), extra)
+			return
+		}
+	}
+	for ref, got := range a.tags {
+		if _, ok := e.m.tags[ref]; !ok {
+			e.violate("delete-created-tag", fmt.Sprintf("tag %q (%s) appeared during a failing Delete", ref, got), extra)
+			return
+		}
+	}
+	want := map[string]bool{}
+	for f := range b.files {
+		want[f] = true
+	}
+	goneKeys := map[string]bool{}
+	for n := range gone {
+		delete(want, blobRel(e.g.Nodes[n].Desc.Digest))
+		goneKeys[gen.Key(e.g.Nodes[n].Desc)] = true
+	}
+	if !sameSet(want, a.files) {
+		e.violate("delete-files-mismatch", fmt.Sprintf("failing Delete(%s): blobs/ holds %d files, expected %d (before minus the removed nodes)", e.nodeName(t), len(a.files), len(want)), extra)
+		return
+	}
+	for _, nd := range e.g.Nodes {
+		if gone[nd.ID] {
+			continue
+		}
+		wp := map[string]bool{}
+		for k := range b.preds[nd.ID] {
+			if !goneKeys[k] {
+				wp[k] = true
+			}
+		}
+		if !sameSet(wp, a.preds[nd.ID]) {
+			e.violate("delete-predecessors-changed", fmt.Sprintf("failing Delete(%s): Predecessors(%s) was %v, is %v, expected %v", e.nodeName(t), e.nodeName(nd.ID), short(b.preds[nd.ID]), short(a.preds[nd.ID]), short(wp)), extra)
+			return
+		}
+	}
+	// (ii) on disk: index.json, and a store opened from the directory
+	var idx ocispec.Index
+	if bs, rerr := os.ReadFile(filepath.Join(e.dir, "index.json")); rerr != nil || json.Unmarshal(bs, &idx) != nil {
+		e.violate("delete-index-unreadable", fmt.Sprintf("index.json after a failing Delete: %v", rerr), extra)
+		return
+	}
+	refsOnDisk := map[string]string{}
+	for _, d := range idx.Manifests {
+		if !a.files[blobRel(d.Digest)] {
+			e.violate("delete-index-names-removed-content", fmt.Sprintf("after Delete(%s) failed part-way (%v), index.json still lists %s (ref %q), whose content was removed", e.nodeName(t), err, d.Digest, d.Annotations[ocispec.AnnotationRefName]), extra)
+			return
+		}
+		if r := d.Annotations[ocispec.AnnotationRefName]; r != "" {
+			refsOnDisk[r] = gen.Key(gen.Plain(d))
+		}
+	}
+	ro, oerr := oci.NewFromFS(ctx, os.DirFS(e.dir))
+	if oerr != nil {
+		e.violate("delete-layout-unreadable", fmt.Sprintf("the layout cannot be opened after a failing Delete: %v", oerr), extra)
+		return
+	}
+	for ref, n := range e.m.tags {
+		d, rerr := ro.Resolve(ctx, ref)
+		if gone[n] {
+			if _, on := refsOnDisk[ref]; on || rerr == nil {
+				e.violate("delete-index-names-removed-content", fmt.Sprintf("after Delete(%s) failed part-way, tag %q of removed node %s is still in index.json / resolves in a reopened store", e.nodeName(t), ref, e.nodeName(n)), extra)
+				return
+			}
+			continue
+		}
+		if rerr != nil || gen.Key(gen.Plain(d)) != e.wantTag(ref, n) || refsOnDisk[ref] != e.wantTag(ref, n) {
+			e.violate("delete-index-lost-other-tag", fmt.Sprintf("after Delete(%s) failed part-way, tag %q of surviving node %s is missing or wrong on disk (index.json %q, reopened: %v)", e.nodeName(t), ref, e.nodeName(n), refsOnDisk[ref], rerr), extra)
+			return
+		}
+	}
+	for ref := range refsOnDisk {
+		if _, ok := e.m.tags[ref]; !ok {
+			e.violate("delete-created-tag", fmt.Sprintf("index.json has tag %q after a failing Delete", ref), extra)
+			return
+		}
+	}
+	e.res.Count("delete_failed_disk_checks", 1)
+	if len(gone) >= 2 || e.adjacentTagged(gone) {
+		e.nt = true
+		e.res.Count("nontrivial_operations", 1)
+	}
+	for n := range gone {
+		e.dropNode(n)
 	}
 }
 
